@@ -260,3 +260,5 @@ def run(ctx):
     _b.check_predicates(ctx, 'C16.RP', 'C16')
     from .. import boundaries as _b
     _b.check_updates(ctx, 'C16.RU', 'C16')
+    from .. import boundaries as _b
+    _b.check_counts(ctx, 'C16.RQ', 'C16')
